@@ -208,3 +208,58 @@ func fixVal(v *Val) {
 		fixVal(&v.L[i])
 	}
 }
+
+// Surface renders the same statement text in another documented spelling: keywords in upper case (bit 0), string literals
+// in double quotes (bit 1), wider spacing (bit 2), a trailing semicolon (bit 3), `select *` left out (bit 4: the bare
+// `where ...` form).  Quoted segments are left alone.  The meaning is unchanged, so are the results.
+var surfaceKeywords = map[string]bool{"select": true, "where": true, "and": true, "or": true, "in": true, "between": true, "order": true, "by": true,
+	"group": true, "limit": true, "as": true, "asc": true, "desc": true, "key": true, "value": true, "delete": true, "put": true, "remove": true, "true": true, "false": true}
+
+func Surface(q string, v int) string {
+	if v&16 != 0 && strings.HasPrefix(q, "select * where ") {
+		q = q[len("select * "):]
+	}
+	var sb strings.Builder
+	i := 0
+	for i < len(q) {
+		c := q[i]
+		switch {
+		case c == '\'' || c == '"' || c == '`':
+			j := i + 1
+			for j < len(q) && q[j] != c {
+				j++
+			}
+			seg := q[i:min(j+1, len(q))]
+			if v&2 != 0 && c == '\'' && !strings.Contains(seg, "\"") && j < len(q) {
+				seg = "\"" + seg[1:len(seg)-1] + "\""
+			}
+			sb.WriteString(seg)
+			i = j + 1
+		case c >= 'a' && c <= 'z' || c == '_':
+			j := i
+			for j < len(q) && (q[j] >= 'a' && q[j] <= 'z' || q[j] == '_' || q[j] >= '0' && q[j] <= '9') {
+				j++
+			}
+			w := q[i:j]
+			if v&1 != 0 && surfaceKeywords[w] {
+				w = strings.ToUpper(w)
+			}
+			sb.WriteString(w)
+			i = j
+		case c == ' ':
+			sb.WriteByte(' ')
+			if v&4 != 0 {
+				sb.WriteString(" \t"[0:1+i%2])
+			}
+			i++
+		default:
+			sb.WriteByte(c)
+			i++
+		}
+	}
+	out := sb.String()
+	if v&8 != 0 {
+		out += " ;"
+	}
+	return out
+}
